@@ -2,7 +2,7 @@
 // and prints every result as exact decimal (%.17g of the value widened to double).
 //   harness f   : vec2f / vec3f / quaternionf            (float, plain vectors)
 //   harness fa  : vec3fa (padded, aligned) linear+affine  (float, padded vectors)
-//   harness d   : quaterniond                             (double)
+//   harness d   : quaterniond, LinearSpace2<vec2d>::orthogonal (double)
 // One case per line:  <kind> <numbers...>   -> one output line "<kind> n1 n2 ..." (same layout as ocaml/C06/driver.ml)
 #include <cstdio>
 #include <cstdlib>
@@ -124,6 +124,17 @@ struct Quat {
   }
 };
 
+template <typename V2>
+static bool run_o2(const std::string &kind, In &in)
+{
+  typedef typename V2::scalar_t T;
+  if (kind != "o2") return false;
+  T a = T(in.n()), c = T(in.n()), b = T(in.n()), d = T(in.n());
+  LinearSpace2<V2> m(V2(a, c), V2(b, d));
+  pm2(m.orthogonal());
+  return true;
+}
+
 static bool run_l2(const std::string &kind, In &in)
 {
   typedef LinearSpace2f L; typedef AffineSpace2f A;
@@ -161,9 +172,9 @@ int main(int argc, char **argv)
     while (ss >> tok) in.v.push_back(strtod(tok.c_str(), nullptr));
     out.clear();
     bool ok = false;
-    if (mode == "f") ok = run_l2(kind, in) || Lin3<vec3f>::run(kind, in) || Quat<float>::run(kind, in);
+    if (mode == "f") ok = run_o2<vec2f>(kind, in) || run_l2(kind, in) || Lin3<vec3f>::run(kind, in) || Quat<float>::run(kind, in);
     else if (mode == "fa") ok = Lin3<vec3fa>::run(kind, in);
-    else if (mode == "d") ok = Quat<double>::run(kind, in);
+    else if (mode == "d") ok = run_o2<vec2d>(kind, in) || Quat<double>::run(kind, in);
     if (!ok) { printf("%s unsupported\n", kind.c_str()); continue; }
     printf("%s", kind.c_str());
     for (double x : out) printf(" %.17g", x);
